@@ -160,7 +160,9 @@ def split_known(rep: Report) -> tuple:
     for v in [i for i in rep.instances if i.verdict == VIOLATION]:
         match = None
         for k in known:
-            if k.get("rule") == v.rule and k.get("function") == v.function and canon_stmt(k.get("stmt", "")) == canon_stmt(v.stmt):
+            # `why_contains` narrows an entry to one kind of violation of the rule at that
+            # construct (a different violation of the same rule there is still reported)
+            if k.get("rule") == v.rule and k.get("function") == v.function and canon_stmt(k.get("stmt", "")) == canon_stmt(v.stmt) and k.get("why_contains", "") in v.why:
                 match = k
                 break
         (listed if match else unlisted).append((v, match))
